@@ -1,7 +1,6 @@
 package main
 
 import (
-	"strconv"
 	"bufio"
 	"context"
 	"encoding/hex"
@@ -11,6 +10,7 @@ import (
 	"os/exec"
 	"path/filepath"
 	"sort"
+	"strconv"
 	"strings"
 
 	"github.com/attestantio/dirk/rules"
